@@ -4,6 +4,7 @@ package mem
 
 import (
 	"container/list"
+	"io"
 	"strconv"
 
 	"github.com/inbucket/inbucket/v3/pkg/extension"
@@ -28,7 +29,9 @@ var _ storage.Store
 //@        mb.messages[k] != nil && mb.messages[k].id == k && k == strconv.Itoa(mb.messages[k].index) &&
 //@        mb.first <= mb.messages[k].index && mb.messages[k].index <= mb.last && mb.messages[k].mailbox == mb.name
 
-func ghost_closed(c chan *msgDone) bool { panic("ghost") }
+func ghost_closed(c chan *msgDone) bool        { panic("ghost") }
+func ghost_rcontent(r io.Reader) vcTok         { panic("ghost") }
+func ghost_srcContent(m storage.Message) vcTok { panic("ghost") }
 
 //@ pred spec_storeOK(s *Store) bool = s.boxes != nil && s.extHost != nil && s.extHost.Events != nil &&
 //@     !ghost_closed(s.incoming) && !ghost_closed(s.remove) &&
@@ -62,6 +65,10 @@ func ghost_closed(c chan *msgDone) bool { panic("ghost") }
 //@ func (*Message).From
 //@   ensures ret == m.from
 //@   serves C07
+// Source (C02): a reader over exactly the stored bytes.
+//@ func (*Message).Source
+//@   ensures[yieldsStored C02] ret1 == nil && ret0 != nil && ghost_rcontent(ret0) == vcTokBytes(m.source)
+//@   serves C02 C07
 //@ func (*Message).Size
 //@   ensures ret == int64(len(m.source))
 //@   ensures[assumedWeight] ret == ghost_weight(m)
@@ -84,7 +91,7 @@ func ghost_closed(c chan *msgDone) bool { panic("ghost") }
 //@      spec_newest(s.boxes[mailbox], m.(*Message))
 //@   ensures[untouched] forall n string :: { vcHas(s.boxes, n) } old(vcHas(s.boxes, n)) ==> vcHas(s.boxes, n) && s.boxes[n] == old(s.boxes[n])
 //@   ensures spec_storeOK(s)
-//@   serves C07 C14 C09
+//@   serves C07 C14 C09 C02
 
 // GetMessages: exactly the messages of the mailbox, oldest first.
 //@ pred spec_inBox(mb *mbox, v storage.Message) bool = v != nil && v.(*Message) != nil &&
@@ -188,7 +195,9 @@ func ghost_emitted(eb *extension.AsyncEventBroker[event.MessageMetadata]) vcSeq[
 //@ func (*Store).AddMessage
 //@   requires spec_storeOK(s) && message != nil
 //@   modifies mapof(s.boxes), s.boxes[message.Mailbox()].last, s.boxes[message.Mailbox()].first, mapof(s.boxes[message.Mailbox()].messages),
-//@      ghost_nemitted(&s.extHost.Events.AfterMessageDeleted), ghost_emitted(&s.extHost.Events.AfterMessageDeleted)
+//@      ghost_nemitted(&s.extHost.Events.AfterMessageDeleted), ghost_emitted(&s.extHost.Events.AfterMessageDeleted),
+//@      allof(ghost_rcontent), ghost_srcContent(message)
+//@   ensures[storesSource C02] err == nil ==> vcTokBytes(s.boxes[message.Mailbox()].messages[id].source) == storage.Ghost_srcContent(message)
 //@   ensures spec_storeOK(s)
 //@   ensures[stored] err == nil ==> vcHas(s.boxes, message.Mailbox()) && vcHas(s.boxes[message.Mailbox()].messages, id) &&
 //@      s.boxes[message.Mailbox()].messages[id].mailbox == message.Mailbox() && s.boxes[message.Mailbox()].messages[id].subject == message.Subject() &&
@@ -203,7 +212,7 @@ func ghost_emitted(eb *extension.AsyncEventBroker[event.MessageMetadata]) vcSeq[
 //@      ghost_nemitted(&s.extHost.Events.AfterMessageDeleted) - old(ghost_nemitted(&s.extHost.Events.AfterMessageDeleted)) ==
 //@         old(len(s.boxes[message.Mailbox()].messages)) + 1 - len(s.boxes[message.Mailbox()].messages)
 //@   ensures[noCapNoEviction C08] err == nil && s.cap <= 0 && old(vcHas(s.boxes, message.Mailbox())) ==> s.boxes[message.Mailbox()].first == old(s.boxes[message.Mailbox()].first)
-//@   serves C07 C08 C01 C16 C09
+//@   serves C07 C08 C01 C16 C09 C02
 
 // PurgeMessages: the mailbox becomes empty; one deleted event per message that was in it, each
 // carrying the mailbox name and the id of one of those messages.
